@@ -49,10 +49,10 @@ type ndPkg struct {
 	dir     string // relative to repo
 	files   []*ast.File
 	names   []string
-	types   map[string]ndRef          // named type -> declared type expression
-	vars    map[string]ndRef          // package-level var/const -> type (or initialiser to be typed)
-	varInit map[string]ndRef          // package-level var -> initialiser expression
-	funcs   map[string]*ndFunc        // "F" or "T.M"
+	types   map[string]ndRef   // named type -> declared type expression
+	vars    map[string]ndRef   // package-level var/const -> type (or initialiser to be typed)
+	varInit map[string]ndRef   // package-level var -> initialiser expression
+	funcs   map[string]*ndFunc // "F" or "T.M"
 	imports map[*ast.File]map[string]string
 }
 
